@@ -82,10 +82,14 @@ impl Id {
 enum Op {
     Schedule(Id, u32),
     Execute(Id),
+    /// `set_execute_operation`: mark executed without invoking the target
+    MarkExecuted(Id),
     Cancel(Id),
     SetMinDelay(u32),
     Advance(u32),
 }
+
+const LONG_IDLE: u32 = 600_000;
 
 #[derive(Clone, Copy, Debug, PartialEq, Eq, Hash)]
 enum St {
@@ -216,6 +220,7 @@ impl Tl {
                 call_mocked(e, &i.c, "schedule", (t, f, a, p, s, *delay).into_val(e))
             }
             Op::Execute(id) => call_mocked(e, &i.c, "execute", i.fields(*id).into_val(e)),
+            Op::MarkExecuted(id) => call_mocked(e, &i.c, "mark_executed", i.fields(*id).into_val(e)),
             Op::Cancel(id) => call_mocked(e, &i.c, "cancel", (i.ids[id.k()].clone(),).into_val(e)),
             Op::SetMinDelay(d) => call_mocked(e, &i.c, "set_min_delay", (*d,).into_val(e)),
             Op::Advance(k) => {
@@ -388,6 +393,9 @@ impl World for Tl {
         }
         for id in probe {
             v.push(Op::Execute(*id));
+            if self.small || matches!(id, Id::X | Id::Y) {
+                v.push(Op::MarkExecuted(*id));
+            }
         }
         for id in probe {
             v.push(Op::Cancel(*id));
@@ -401,6 +409,11 @@ impl World for Tl {
         v.push(Op::Advance(2));
         if self.small {
             v.push(Op::Advance(3));
+            // one long idle period (beyond the lifetime of any temporary entry and of the library's
+            // TTL extension): Done must stay Done, Unset stay Unset, a scheduled operation stay scheduled
+            if envx::now(&_i.e) < self.start + LONG_IDLE {
+                v.push(Op::Advance(LONG_IDLE));
+            }
         }
         v
     }
@@ -409,6 +422,7 @@ impl World for Tl {
         match op {
             Op::Schedule(..) => "schedule",
             Op::Execute(_) => "execute",
+            Op::MarkExecuted(_) => "set_execute_operation",
             Op::Cancel(_) => "cancel",
             Op::SetMinDelay(_) => "set_min_delay",
             Op::Advance(_) => "advance",
@@ -466,7 +480,8 @@ impl World for Tl {
                     cx.stats.count(why, 1);
                 }
             }
-            Op::Execute(id) => {
+            Op::Execute(id) | Op::MarkExecuted(id) => {
+                let invoke = matches!(op, Op::Execute(_));
                 let k = id.k();
                 let before = m.reported(k, now);
                 let pred_done = match id.pred() {
@@ -474,7 +489,7 @@ impl World for Tl {
                     Some(p) => m.reported(p.k(), now) == RState::Done,
                 };
                 // the target function of F panics: such an execution can never complete
-                let runnable = *id != Id::F;
+                let runnable = *id != Id::F || !invoke;
                 if ok {
                     ensure!(runnable, "failed-target-call", "execute({:?}) reported success although the target call fails", id);
                     ensure!(before != RState::Done, "done-is-absorbing", "execute({:?}) succeeded although the operation had been executed before", id);
@@ -489,7 +504,9 @@ impl World for Tl {
                     );
                     ensure!(pred_done, "execute-predecessor", "execute({:?}) succeeded although its predecessor {:?} is {:?}", id, id.pred(), id.pred().map(|p| m.reported(p.k(), now)));
                     m.st[k] = St::Done;
-                    m.calls[id.tag() as usize - 1] += 1;
+                    if invoke {
+                        m.calls[id.tag() as usize - 1] += 1;
+                    }
                     cx.stats.count(if id.pred().is_some() { "execute ok, predecessor Done" } else { "execute ok, no predecessor" }, 1);
                 } else {
                     ensure!(
